@@ -342,6 +342,8 @@ def run(tier):
             for r in todo[:k]:
                 sc = r[0]["scenario"]
                 broken = verdicts.get(sc["id"], [])
+                if not r[-1].get("hit"):
+                    broken = []     # the planned events did not all fire: the cell is unexplored, nothing is judged
                 out["validated"].append((r, broken))
                 for v in broken:
                     out["findings"].append((mode, dc, r, v))
